@@ -17,14 +17,17 @@
    (RefDb): a rejected command ("no such savepoint") raises OperationalError at that point and the
    [finally] clauses of the code run, exactly as with a real database.
 
+   Faults: the environment can install a `begin` event listener that raises (FBegin) and make the
+   next DBAPI rollback() report an error (FRollback).
    Not modelled (outside the property): invalidation / disconnects, two-phase, a failing
-   COMMIT/ROLLBACK/BEGIN, the [__in_begin] re-entrancy flag, [assert] statements. *)
+   COMMIT/SAVEPOINT, [assert] statements. *)
 From Coq Require Import List ZArith NArith Bool Arith.
 Import ListNotations.
 From SAV.engine Require Import RefDb.
 
 Inductive exn : Type :=
-  InvalidRequestError | PendingRollbackError | ResourceClosedError | OperationalError.
+  InvalidRequestError | PendingRollbackError | ResourceClosedError | OperationalError
+  | ListenerError.   (* the exception a user's `begin` event listener raises *)
 Inductive res : Type := Ok | Raise (e : exn) | OutOfFuel.
 
 (* one Transaction object *)
@@ -44,25 +47,31 @@ Record st : Type := mkS {
   c_ctx : option nat;       (* Connection._trans_context_manager *)
   c_seq : N;                (* Connection.__savepoint_seq *)
   c_closed : bool;          (* _dbapi_connection is None and not __can_reconnect *)
+  c_in_begin : bool;        (* Connection.__in_begin *)
+  c_beginfail : N;          (* environment: a `begin` event listener that raises: 0 none, 1 once, 2 always *)
+  c_rbfail : bool;          (* environment: the next DBAPI rollback() is performed but reports an error *)
   s_db : db;                (* the database behind the DBAPI connection *)
   s_out : list (cmd * bool);(* commands sent to the DBAPI connection during the current call, with
                                the database's verdict (true = accepted) *)
   s_warns : nat             (* util.warn calls during the current call *)
 }.
 
-Definition init (d : db) : st := mkS [] None None None 0%N false d [] 0.
+Definition init (d : db) : st := mkS [] None None None 0%N false false 0%N false d [] 0.
 
 (* ---- field updates ---- *)
-Definition set_txns l s := mkS l (c_root s) (c_nested s) (c_ctx s) (c_seq s) (c_closed s) (s_db s) (s_out s) (s_warns s).
-Definition set_root o s := mkS (txns s) o (c_nested s) (c_ctx s) (c_seq s) (c_closed s) (s_db s) (s_out s) (s_warns s).
-Definition set_nested o s := mkS (txns s) (c_root s) o (c_ctx s) (c_seq s) (c_closed s) (s_db s) (s_out s) (s_warns s).
-Definition set_ctx o s := mkS (txns s) (c_root s) (c_nested s) o (c_seq s) (c_closed s) (s_db s) (s_out s) (s_warns s).
-Definition set_seq n s := mkS (txns s) (c_root s) (c_nested s) (c_ctx s) n (c_closed s) (s_db s) (s_out s) (s_warns s).
-Definition set_closed b s := mkS (txns s) (c_root s) (c_nested s) (c_ctx s) (c_seq s) b (s_db s) (s_out s) (s_warns s).
-Definition set_db d s := mkS (txns s) (c_root s) (c_nested s) (c_ctx s) (c_seq s) (c_closed s) d (s_out s) (s_warns s).
-Definition add_out e s := mkS (txns s) (c_root s) (c_nested s) (c_ctx s) (c_seq s) (c_closed s) (s_db s) (s_out s ++ [e]) (s_warns s).
-Definition add_warn s := mkS (txns s) (c_root s) (c_nested s) (c_ctx s) (c_seq s) (c_closed s) (s_db s) (s_out s) (S (s_warns s)).
-Definition clear_log s := mkS (txns s) (c_root s) (c_nested s) (c_ctx s) (c_seq s) (c_closed s) (s_db s) [] 0.
+Definition set_txns l s := mkS l (c_root s) (c_nested s) (c_ctx s) (c_seq s) (c_closed s) (c_in_begin s) (c_beginfail s) (c_rbfail s) (s_db s) (s_out s) (s_warns s).
+Definition set_root o s := mkS (txns s) o (c_nested s) (c_ctx s) (c_seq s) (c_closed s) (c_in_begin s) (c_beginfail s) (c_rbfail s) (s_db s) (s_out s) (s_warns s).
+Definition set_nested o s := mkS (txns s) (c_root s) o (c_ctx s) (c_seq s) (c_closed s) (c_in_begin s) (c_beginfail s) (c_rbfail s) (s_db s) (s_out s) (s_warns s).
+Definition set_ctx o s := mkS (txns s) (c_root s) (c_nested s) o (c_seq s) (c_closed s) (c_in_begin s) (c_beginfail s) (c_rbfail s) (s_db s) (s_out s) (s_warns s).
+Definition set_seq n s := mkS (txns s) (c_root s) (c_nested s) (c_ctx s) n (c_closed s) (c_in_begin s) (c_beginfail s) (c_rbfail s) (s_db s) (s_out s) (s_warns s).
+Definition set_closed b s := mkS (txns s) (c_root s) (c_nested s) (c_ctx s) (c_seq s) b (c_in_begin s) (c_beginfail s) (c_rbfail s) (s_db s) (s_out s) (s_warns s).
+Definition set_in_begin b s := mkS (txns s) (c_root s) (c_nested s) (c_ctx s) (c_seq s) (c_closed s) b (c_beginfail s) (c_rbfail s) (s_db s) (s_out s) (s_warns s).
+Definition set_beginfail n s := mkS (txns s) (c_root s) (c_nested s) (c_ctx s) (c_seq s) (c_closed s) (c_in_begin s) n (c_rbfail s) (s_db s) (s_out s) (s_warns s).
+Definition set_rbfail b s := mkS (txns s) (c_root s) (c_nested s) (c_ctx s) (c_seq s) (c_closed s) (c_in_begin s) (c_beginfail s) b (s_db s) (s_out s) (s_warns s).
+Definition set_db d s := mkS (txns s) (c_root s) (c_nested s) (c_ctx s) (c_seq s) (c_closed s) (c_in_begin s) (c_beginfail s) (c_rbfail s) d (s_out s) (s_warns s).
+Definition add_out e s := mkS (txns s) (c_root s) (c_nested s) (c_ctx s) (c_seq s) (c_closed s) (c_in_begin s) (c_beginfail s) (c_rbfail s) (s_db s) (s_out s ++ [e]) (s_warns s).
+Definition add_warn s := mkS (txns s) (c_root s) (c_nested s) (c_ctx s) (c_seq s) (c_closed s) (c_in_begin s) (c_beginfail s) (c_rbfail s) (s_db s) (s_out s) (S (s_warns s)).
+Definition clear_log s := mkS (txns s) (c_root s) (c_nested s) (c_ctx s) (c_seq s) (c_closed s) (c_in_begin s) (c_beginfail s) (c_rbfail s) (s_db s) [] 0.
 
 Fixpoint upd {A} (k : nat) (f : A -> A) (l : list A) : list A :=
   match l, k with
@@ -112,20 +121,38 @@ Definition ctx_check : M := fun s =>
   | None => (Ok, s)
   end.
 
-(* RootTransaction.__init__ (with Connection._begin_impl; on a closed connection [self.connection]
-   raises ResourceClosedError before anything reaches a DBAPI connection) *)
+(* Connection._begin_impl: __in_begin is set, the `begin` listeners run (the environment may have
+   installed one that raises), do_begin is called, and the finally clause resets __in_begin whatever
+   happened (the listener call is INSIDE the try since fix ba42825) *)
+Definition begin_listener : M := fun s =>
+  match c_beginfail s with
+  | 0%N => (Ok, s)
+  | 1%N => (Raise ListenerError, set_beginfail 0%N s)
+  | _ => (Raise ListenerError, s)
+  end.
+Definition begin_impl : M :=
+  bind (fun s => (Ok, set_in_begin true s))
+       (finally (bind begin_listener (emit Begin)) (fun s => (Ok, set_in_begin false s))).
+
+(* RootTransaction.__init__ (on a closed connection [self.connection] raises ResourceClosedError
+   before anything reaches a DBAPI connection; listeners are installed on live connections only) *)
 Definition new_root : M :=
   bind ctx_check (fun s =>
     if c_closed s then (Raise ResourceClosedError, s)
-    else bind (emit Begin)
+    else bind begin_impl
            (fun s => (Ok, set_root (Some (length (txns s)))
                             (push_txn (mkT true true 0%N None false None) s))) s).
 
-(* Connection.begin; Connection._autobegin calls it *)
+(* Connection.begin *)
 Definition begin : M := fun s =>
   match c_root s with None => new_root s | Some _ => (Raise InvalidRequestError, s) end.
+(* "if self._transaction is None: self._autobegin()" with
+   _autobegin = "if self._allow_autobegin and not self.__in_begin: self.begin()" *)
 Definition autobegin_if_none : M := fun s =>
-  match c_root s with None => begin s | Some _ => (Ok, s) end.
+  match c_root s with
+  | None => if c_in_begin s then (Ok, s) else begin s
+  | Some _ => (Ok, s)
+  end.
 
 (* transactional prologue of Connection._execute_context *)
 Definition exec_guard : M := fun s =>
@@ -173,8 +200,14 @@ Fixpoint cancel (fuel k : nat) : M :=
 Definition cancel_nested : M := fun s =>
   match c_nested s with Some n => cancel (length (txns s)) n s | None => (Ok, s) end.
 
-(* Connection._rollback_impl: DBAPI rollback only if the connection is still open *)
-Definition rollback_impl : M := fun s => if c_closed s then (Ok, s) else emit Rollback s.
+(* Connection._rollback_impl: DBAPI rollback only if the connection is still open.  The environment
+   may make the DBAPI rollback() report an error after performing it: _handle_dbapi_exception wraps
+   it into OperationalError (no second rollback: the root transaction is still active then) *)
+Definition rollback_impl : M := fun s =>
+  if c_closed s then (Ok, s)
+  else if c_rbfail s
+       then bind (emit Rollback) (fun s => (Raise OperationalError, s)) (set_rbfail false s)
+       else emit Rollback s.
 
 (* RootTransaction._close_impl(try_deactivate) *)
 Definition root_close_impl (k : nat) (try_deact : bool) : M :=
@@ -256,7 +289,10 @@ Definition in_nested_transaction s := inst_active (c_nested s) s.
 (* ---- operations of a history ---- *)
 Inductive op : Type :=
   | OBegin | ONested | OIns (v : Z) | OCommit | ORollback | OClose
-  | TCommit (k : nat) | TRollback (k : nat) | TClose (k : nat) | TEnter (k : nat) | TExit (k : nat) (exc : bool).
+  | TCommit (k : nat) | TRollback (k : nat) | TClose (k : nat) | TEnter (k : nat) | TExit (k : nat) (exc : bool)
+  (* fault injection by the environment *)
+  | FBegin (mode : N)        (* install (1: fails once, 2: fails always) / remove (0) a raising `begin` listener *)
+  | FRollback (b : bool).    (* the next DBAPI rollback() reports an error *)
 
 Definition handle_of (o : op) : option nat :=
   match o with
@@ -277,6 +313,8 @@ Definition run_op (o : op) : M :=
   | TClose k => t_close k
   | TEnter k => t_enter k
   | TExit k e => t_exit k e
+  | FBegin n => fun s => (Ok, set_beginfail n s)
+  | FRollback b => fun s => (Ok, set_rbfail b s)
   end.
 
 (* an operation naming a transaction object that does not exist is skipped ([None]) *)
